@@ -76,7 +76,7 @@ func runC06(c *Check) {
 				if !dcsWrite(e) || !(e.Key == kSwitch || e.Key == kLast || e.Key == kRej || e.Key == "?") {
 					continue
 				}
-				k := e.String() + "@" + p.InstrPos(e.Site) + "/" + r.Name
+				k := e.String() + "@" + c.eff.ChainString(e) + "/" + r.Name // per call chain: the same write site is reached through several wrappers
 				if seen[k] {
 					continue
 				}
